@@ -92,6 +92,25 @@ class Ctx(object):
         self.violate(prop, oracle, detail, sig)
         return False
 
+    @classmethod
+    def rebuild(cls, focus, res, lines, trace=False):
+        """Reconstruct a context from the picklable result of a run executed in another process."""
+        c = cls(focus, trace=trace)
+        for line in lines:
+            c._h.update(line.encode())
+            c._h.update(b"\n")
+            c.n_events += 1
+            if c.trace is not None:
+                c.trace.append(line)
+        c.violations = list(res["violations"])
+        c.faults.update(res["faults"])
+        c.probes.update(res["probes"])
+        c.sigs = set(res["sigs"])
+        c.bigrams = set(res["bigrams"])
+        c.judged = res["judged"]
+        c.sim_seconds = res["sim_seconds"]
+        return c
+
     def result(self):
         return {
             "violations": self.violations,
